@@ -170,6 +170,8 @@ def mon_C10(case, obs):
 
 
 def mon_C11(case, obs):
+    if obs['outcome'] == 'hang':
+        return ('no-termination', f"run_tasks did not return or raise: {obs.get('exc')} (runner {case.get('runner')})")
     if obs['outcome'] == 'stuck':
         return ('deadlock', 'the coordinator called wait() with nothing in flight while tasks remained')
     if obs['outcome'] == 'other':
@@ -271,8 +273,13 @@ def run(prop, report, tier, seed, replay=None):
                 c['pre'] = []
                 l2cases.append(c)
         cases = [c for c in cases if c.get('runner') != 'l2']
+        hangs = 0
         for c in l2cases:
+            if hangs >= 2:
+                break           # every further run would only wait for the watchdog again
+            c.setdefault('watchdog_s', 20)
             obs, script = X.run_l2(c, p_kill=0.2 if prop in ('C10', 'C11') else 0.1)
+            hangs += obs['outcome'] == 'hang'
             subs = [e[1] for e in obs['events'] if e[0] == 'submit']
             eff = dict(c, behs=list(c['behs']))
             for fid in script.killed_fids:
